@@ -12,7 +12,10 @@ from hypothesis import strategies as st
 
 from vlib.core import Outcome, fail, sut, is_raised, HERE
 from vlib import typegen as tg
-from vlib import mat, hybgen, assign
+from vlib import mat, hybgen, assign, cbuild
+import itertools
+
+_kcount = itertools.count()
 from checks import c01
 
 ID = "C20"
@@ -22,7 +25,7 @@ RULE = (
     "case = group of 1-4 objects of generated importable types (Struct roots of the full grammar incl. strings, "
     "dynamic arrays, several dynamic fields, Ref/UnionRef fields; named Array roots; generated HybridClass objects "
     "with nested classes) x values, placed in 1-2 buffers (BufferNumpy/BufferByteArray, capacity 0..1024, "
-    "allocate/free pre-history so that the free list is not trivial) and pickled together as one tuple with protocol "
+    "allocate/free pre-history so that the free list is not trivial) and pickled together (in one case of sixteen after the contexts compiled and called a kernel) as one tuple with protocol "
     "2..5; unpickled in-process and, for a sample, in a fresh interpreter that imports a generated module file. "
     "Oracle: every unpickled object reads equal to the model at every field (handles, and for hybrid objects also the "
     "dressed attributes); a fitting leaf write to the copy shows in the copy and not in the original and vice versa; "
@@ -86,7 +89,8 @@ def cases(draw, tier):
             # user we assume that we can write there"); such an object is not protected from later allocations
             o["at"] = "free"
         objs.append(o)
-    return {"bufs": bufs, "objs": objs, "proto": draw(st.sampled_from([2, 3, 4, 5, 5])), "fresh": draw(st.integers(0, 19)) == 0}
+    return {"bufs": bufs, "objs": objs, "proto": draw(st.sampled_from([0, 1, 2, 3, 4, 5, 5])), "fresh": draw(st.integers(0, 19)) == 0,
+            "kernel": draw(st.integers(0, 15)) == 0}
 
 
 def _prefix(h, p):
@@ -294,6 +298,19 @@ def _run(case, modname):
             labels.add("group_with_referenced_child")
         free_before = [int(b.get_free()) for b in bufs]
         cap_before = [int(b.capacity) for b in bufs]
+    if case.get("kernel"):
+        # the contexts have compiled and called a kernel before their objects are pickled
+        import xobjects as xo
+
+        cbuild.quiet()
+        for c_ in {id(b.context): b.context for b in bufs}.values():
+            kn_ = f"vf_one_{os.getpid()}_{next(_kcount)}"
+            r = sut(c_.add_kernels, sources=[f"int {kn_}(int a){{ return a + 1; }}"],
+                    kernels={kn_: xo.Kernel(args=[xo.Arg(xo.Int32, name="a")], ret=xo.Arg(xo.Int32), c_name=kn_)},
+                    extra_compile_args=cbuild.FAST_FLAGS, extra_link_args=())
+            if is_raised(r) or getattr(c_.kernels, kn_)(a=1) != 2:
+                return fail("kernel_build_failed", f"{r}", "setup", labels)
+        labels.add("context_compiled_a_kernel_before")
     blob = sut(pickle.dumps, tuple(objs) + tuple(e[3] for e in extras), case["proto"])
     if is_raised(blob):
         return fail("pickle_raised", f"{blob}", blob.key + "|" + _kinds(case), labels)
